@@ -176,6 +176,13 @@ def permute_class_mappings(nspec, value, rng, failing):
                     extras.add(k[2])
         if not is_class:
             continue
+        keys = [repr(k) for k, _ in s[1]]
+        if len(set(keys)) != len(keys) or any(
+                k[0] == 's' and k[1] == D.CORE + 'merge' for k, _ in s[1]):
+            # which occurrence of a key that is there twice counts (and what
+            # a merge key overrides) depends on the order: permuting such a
+            # mapping alters the document's meaning
+            continue
         pairs = list(D.get_at(out, p)[1])
         par = [x for x in pairs if not (x[0][0] == 's' and x[0][2] in extras)]
         ext = [x for x in pairs if x[0][0] == 's' and x[0][2] in extras]
